@@ -129,6 +129,8 @@ def make_obj2(kind):
     x, z = np.linspace(0, 5, 12), np.linspace(-1, 3, 10)
     if kind == 'xonly':
         return Baseline2D(x)
+    if kind == 'zonly':
+        return Baseline2D(None, z)
     return Baseline2D(x, z)
 
 
@@ -363,8 +365,8 @@ def schedules_for(ctx, kind, name, nthreads, steps, exhaustive, sampled):
 
 
 def finding_key(kind, name, two_d):
-    if two_d and kind in ('noxz', 'xonly'):
-        return KEY_FIRST_2D
+    if two_d and kind in ('noxz', 'xonly', 'zonly'):
+        return KEY_FIRST_2D       # repaired by d3d4e98 (a `fixed:` line): a hit is a VIOLATION again
     if not two_d and kind == 'nox':
         return KEY_FIRST_1D       # repaired by f1bf5e1 (a `fixed:` line): a hit is a VIOLATION again
     if name == 'adaptive_minmax':
@@ -553,7 +555,7 @@ def refuted_cases(ctx):
     """The refuted region adaptive_minmax: every schedule is still replayed and compared with the model
     (which models the current code), and the deviations are reported under the finding key."""
     lits, meta = [], []
-    ctx.known_replayed = {KEY_FIRST_2D, KEY_AMM}
+    ctx.known_replayed = {KEY_AMM}
     ser = serial_reference('x', 'adaptive_minmax', 1)
     steps = len(codes(ser['events'][0]))
     scheds = schedules_for(ctx, 'x', 'adaptive_minmax', 2, steps, 2, ctx.n(6, 40))
@@ -579,7 +581,7 @@ def oracle(ctx, budget):
             except T.SchedulerBroken as e:
                 ctx.broke('scheduler', f'{name}: {e}')
     for name in METHODS_2D:
-        for kind in ('xz', 'noxz', 'xonly'):
+        for kind in ('xz', 'noxz', 'xonly', 'zonly'):
             try:
                 ser = serial_reference(kind, name, 2, two_d=True)
                 steps = max(sum(1 for e in ser['events'][0] if e[0] in 'RW'), 8)
@@ -600,6 +602,148 @@ def oracle(ctx, budget):
                             ctx.broke('correspondence:unmodelled-shared-write-2d', f'{name} on {kind}: {sorted(set(con["unmodelled"]))[:6]}')
             except T.SchedulerBroken as e:
                 ctx.broke('scheduler', f'2d {name}: {e}')
+
+
+# ------------------------------------------------------------------------------------------------
+# 2-D first calls: program correspondence + schedule replay against coq/C04/Model2D.v
+
+HEADER2 = """From Coq Require Import ZArith List Bool.
+From PB Require Import lib.CaseUtil C04.Sched C04.Model2D.
+Import ListNotations.
+Open Scope Z_scope.
+"""
+CELL2 = {'x': 0, 'z': 1, 'shape': 2, 'size': 3, 'validx': 4, 'validz': 5}
+M2, N2 = 12, 10
+METHODS_2D_MODEL = {'rolling_ball': {'half_window': 2}, 'asls': {'lam': 1e2, 'max_iter': 2},
+                    'arpls': {'lam': 1e2, 'max_iter': 2}, 'mor': {'half_window': 2}}
+METHODS_2D.update(METHODS_2D_MODEL)
+
+CHECK2 = """
+Definition ok (c : state2 * list nat * list Z * list Z * list Z) : bool :=
+  let '(st, sched, log, outs, ab) := c in
+  let fin := run_sched2 false false sched st in
+  zl_eqb (map (outcome2 %d %d) (snd fin)) outs && zl_eqb (sched_log2 false false sched st) log
+  && zl_eqb (abstraction2 (fst fin)) ab.
+""" % (M2, N2)
+
+
+def abstraction2(f):
+    d = f.__dict__
+    x, z, sh, sz = d.get('x'), d.get('z'), d.get('_Algorithm2D__shape'), d.get('_size')
+    return [-1 if x is None else len(x), -1 if z is None else len(z),
+            -1 if sh[0] is None else int(sh[0]), -1 if sh[1] is None else int(sh[1]),
+            -1 if sz is None else int(sz), 1 if d.get('_validated_x') else 0, 1 if d.get('_validated_z') else 0]
+
+
+def parse_events2(events):
+    """2-D thread program: the prologue (one segment, regenerated by the model from the shared state) and
+    later reads of x / z / _shape / _size; anything else is outside the 2-D model (fail-closed)."""
+    acc = [e for e in events if e[0] in 'RWM']
+    if not acc or acc[0][0] != 'M' or acc[0][1] != 'call':
+        raise Unparsed('2-D call does not start with a call marker')
+    uniq = acc[0][2][1]
+    rest = acc[1:]
+    if any(e[0] == 'M' for e in rest):
+        raise Unparsed('nested call / setup marker in a 2-D model method')
+    # the prologue ends with the last store, or (no store: x and z already set) after R x; R z; R shape
+    last_w = max([i for i, e in enumerate(rest) if e[0] == 'W'], default=-1)
+    k = last_w + 1 if last_w >= 0 else 3
+    segs = [f'Pro2 {"true" if uniq else "false"} {M2} {N2}']
+    for e in rest[k:]:
+        if e[0] != 'R' or e[2] not in ('x', 'z', 'shape', 'size'):
+            raise Unparsed(f'2-D access outside the modelled protocol: {e}')
+        segs.append('Use2 D' + e[2])
+    return segs
+
+
+def codes2(events, tid):
+    return [100 * tid + CELL2[e[2]] + (10 if e[0] == 'W' else 0) for e in events if e[0] in 'RW']
+
+
+def model2d_cases(ctx):
+    lits, meta = [], []
+    kinds = {'noxz': (False, False), 'xonly': (True, False), 'zonly': (False, True), 'xz': (True, True)}
+    for kind, (ix, iz) in kinds.items():
+        for name in METHODS_2D_MODEL:
+            for nt in (2, 3):
+                ser = serial_reference(kind, name, nt, two_d=True)
+                try:
+                    progs = [parse_events2(ev) for ev in ser['events']]
+                except Unparsed as e:
+                    ctx.broke('correspondence:program-parse-2d', f'{name} on {kind}: {e}')
+                    continue
+                ctx.traces += nt
+                st = (f'(fresh2 {"true" if ix else "false"} {"true" if iz else "false"} {M2} {N2}, '
+                      f'[{"; ".join("init_local2 [" + "; ".join(p_) + "]" for p_ in progs)}])')
+                steps = sum(1 for e in ser['events'][0] if e[0] in 'RW')
+                ser_sched, ser_log = [], []
+                for i, ev in enumerate(ser['events']):
+                    c = codes2(ev, i)
+                    ser_sched += [i] * len(c)
+                    ser_log += c
+                f = make_obj2(kind)
+                for i in range(nt):
+                    getattr(f, name)(ydata2(i), **METHODS_2D[name])
+                lits.append(f'({st}, [{"; ".join(str(t) + "%nat" for t in ser_sched)}], {zlist(ser_log)}, '
+                            f'{zlist([0] * nt)}, {zlist(abstraction2(f))})')
+                meta.append({'kind': kind, 'method': name, 'threads': nt, 'schedule': 'serial', 'two_d': True})
+                ctx.case(('serial2d', kind, name, nt), kind=f'program2d:{name}:{kind}')
+                if nt == 2:
+                    scheds = list(interleavings(ctx.n(4, 6), ctx.n(4, 6))) if name == 'rolling_ball' else []
+                    scheds += [[0] * k + [1] * (steps + 5) for k in range(0, steps + 1)]
+                    scheds += [[ctx.rng.randrange(2) for _ in range(2 * steps)] for _ in range(ctx.n(3, 20))]
+                else:
+                    scheds = [[ctx.rng.randrange(3) for _ in range(3 * steps)] for _ in range(ctx.n(4, 30))]
+                for sched in scheds:
+                    meth_kw = METHODS_2D[name]
+                    f = make_obj2(kind)
+                    jobs = [call_job(f, name, meth_kw, ydata2(i)) for i in range(nt)]
+                    try:
+                        con = T.run_concurrent([f], jobs, sched)
+                    except T.SchedulerBroken as e:
+                        ctx.broke('scheduler', f'2d {name} on {kind}: {e}')
+                        break
+                    outs = [outcome_code(con['results'][i], ser['results'][i]) for i in range(nt)]
+                    case = {'kind': kind, 'method': name, 'threads': nt, 'schedule': con['executed'], 'two_d': True,
+                            'outcomes': outs}
+                    sw = sum(1 for a, b in zip(con['executed'], con['executed'][1:]) if a != b)
+                    ctx.case(('replay2d', kind, name, nt, tuple(con['executed'])), nontrivial=sw >= 2,
+                             kind=f'replay2d:{name}:{kind}:{nt}t')
+                    if any(outs):
+                        ctx.fail(finding_key(kind, name, True) or f'race:2d:{name}:{kind}',
+                                 '2-D ' + describe(kind, name, outs, con), case)
+                    if con['unmodelled']:
+                        ctx.broke('correspondence:unmodelled-shared-write-2d', f'{name} on {kind}: {sorted(set(con["unmodelled"]))[:6]}')
+                    glog, ptr = [], [0] * nt
+                    for t in con['executed']:
+                        lg = con['logs'][t]
+                        if ptr[t] < len(lg):
+                            glog.append(100 * t + CELL2[lg[ptr[t]][2]] + (10 if lg[ptr[t]][0] == 'W' else 0))
+                            ptr[t] += 1
+                    lits.append(f'({st}, [{"; ".join(str(t) + "%nat" for t in con["executed"])}], {zlist(glog)}, '
+                                f'{zlist([min(o, 2) for o in outs])}, {zlist(abstraction2(f))})')
+                    meta.append(case)
+    ob = 'correspondence:first-call-2d(access sequences, outcomes and final state: model = real threads)'
+    ctx.obligations.append(ob)
+    bad = False
+    per = 250
+    for s0 in range(0, len(lits), per):
+        sh = lits[s0:s0 + per]
+        text = HEADER2 + CHECK2 + ('\nDefinition cases : list (state2 * list nat * list Z * list Z * list Z) := [\n'
+                                   + ';\n'.join('  ' + l for l in sh) + '\n].\nEval vm_compute in (bad ok cases).\n')
+        vals = ctx.coq_eval(f'first2d{s0 // per}', text)
+        if vals is None:
+            bad = True
+        elif not vals or not vals[0].startswith('(0'):
+            bad = True
+            import re
+            mm = re.match(r'\((\d+)(?:%nat)?, \[(.*)\]\)', vals[0]) if vals else None
+            idx = [int(t.replace('%nat', '')) for t in (mm.group(2).split(';') if mm else []) if t.strip()]
+            ctx.broke(ob, f'2-D model and implementation disagree on {vals[0] if vals else "?"}: {[meta[s0 + i] for i in idx[:3]]}')
+    if not bad:
+        ctx.discharged.append(ob)
+    return bad
+
 
 
 def prefix_fact(ctx):
@@ -642,12 +786,13 @@ def run(ctx):
     bad1 = model_cases(ctx)
     t2 = time.time()
     bad2 = refuted_cases(ctx)
+    bad3 = model2d_cases(ctx)
     t3 = time.time()
     budget = 1 if (ok and not ctx.broken and ctx.tier == 'quick') else 4
     oracle(ctx, budget)
     ctx.extra['phase_seconds'] = {'build': round(t1 - t0), 'safe_region': round(t2 - t1), 'refuted_regions': round(t3 - t2),
                                   'oracle': round(time.time() - t3)}
-    ctx.note('NOT covered: 2-D thread programs in Coq (2-D objects are checked by schedule replay against the serial result only); '
+    ctx.note('NOT covered: 2-D polynomial / spline caches in Coq (_PolyHelper2D, SplineBasis2D: schedule replay against the serial result only; the 2-D first-call prologue IS modelled and proved); '
              'free-threaded builds / races inside C extensions; methods outside the listed ones are covered by the theorem only through '
              'the segment grammar (any sequence of prologue / _setup_polynomial / body reads / _setup_spline / _size,_shape,x reads); '
              f'oracle budget x{budget}')
